@@ -35,104 +35,176 @@ TR = 'outrank.task_ranking'
 STORES = {'GLOBAL_PRIOR_COMB_COUNTS', 'GLOBAL_PRIOR_CONSTRUCTION_COUNTS'}
 
 
-def sampler_selection(repo, chk, prefix):
-    """Obligations 2-4 (shared with C06: "reduced only by the cap")."""
+KEYS = ['counter.get', 'lambda c: counter[c]', 'lambda c: counter.get(c)', 'counter.__getitem__', 'lambda c: counter.get(c, 0)']
+CAP = 'args.combination_number_upper_bound'
+
+
+def _roles(fn, counter_expr):
+    cands, args = fn.params[0], fn.params[1]
+    b = {cands: ('role', 'cands'), args: ('role', 'args')}
+    return b
+
+
+def selection_forms(m):
+    """accepted spellings of "the cap least-counted candidates, ties in list order" over the roles cands / args / counter"""
+    E = lambda src: expected_term(m, src, {'cands': ('role', 'cands'), 'args': ('role', 'args'), 'counter': ('role', 'counter')})
+    forms = []
+    for k in KEYS:
+        forms += [E(f'sorted(cands, key={k})[:{CAP}]'), E(f'sorted(cands, key={k}, reverse=False)[:{CAP}]'), E(f'heapq.nsmallest({CAP}, cands, key={k})'),
+                  E(f'sorted(cands, key={k})[0:{CAP}]'), E(f'list(sorted(cands, key={k}))[:{CAP}]')]
+    for arr in ('numpy.asarray([counter[c] for c in cands])', 'numpy.array([counter[c] for c in cands])', 'numpy.asarray([counter.get(c) for c in cands])', 'numpy.fromiter((counter[c] for c in cands), dtype=int)'):
+        for kind in ("'stable'", "'mergesort'"):
+            forms += [E(f'[cands[p] for p in numpy.argsort({arr}, kind={kind})[:{CAP}]]')]
+    return forms
+
+
+class SamplerPath:
+    pass
+
+
+def sampler_model(repo):
+    """Paths of prior_combinations_sample (forking on `counter is None`, empty candidate list, nothing to initialise): per path the counter
+    object, the returned expression and the keyed updates of the counter, all written over the parameters."""
+    from ..match import run_paths
     fn = repo.func(CR, 'prior_combinations_sample')
+    paths = run_paths(fn, None, None, max_forks=5)
+    return fn, paths
+
+
+def _counter_of(fn, expr):
+    """'global' / 'param' / None for the object a keyed update writes to"""
+    if isinstance(expr, ast.Name) and expr.id == 'GLOBAL_PRIOR_COMB_COUNTS':
+        return 'global'
+    if isinstance(expr, ast.Name) and len(fn.params) > 2 and expr.id == fn.params[2]:
+        return 'param'
+    return None
+
+
+def sampler_selection(repo, chk, prefix):
+    """Obligations 1-4 on the path model of the sampler."""
+    fn, paths = sampler_model(repo)
     m = fn.module
     cands, args = fn.params[0], fn.params[1]
     cparam = fn.params[2] if len(fn.params) > 2 else None
-    rets = [r for r in returns(fn)]
-    main = [r for r in rets if not (isinstance(r.value, (ast.List, ast.Tuple)) and not r.value.elts)]
-    if len(main) != 1 or not isinstance(main[0].value, ast.Name):
-        chk.unsure(f'{prefix}.2', 'R15', fn.site(), 'return <selected>', 'the sampler does not return a single named list')
+    if paths is None:
+        chk.unsure(f'{prefix}.2', 'R15', fn.site(), 'prior_combinations_sample', 'too many undecidable tests in the sampler')
         return None
-    sel = main[0].value.id
-    defs = [n for n in own_nodes(fn.node) if isinstance(n, ast.Assign) and any(isinstance(t, ast.Name) and t.id == sel for t in n.targets)]
-    others = [n for n in own_nodes(fn.node) if (isinstance(n, ast.AugAssign) and isinstance(n.target, ast.Name) and n.target.id == sel)
-              or (isinstance(n, ast.Call) and isinstance(n.func, ast.Attribute) and isinstance(n.func.value, ast.Name) and n.func.value.id == sel and n.func.attr in ('append', 'extend', 'sort', 'remove', 'pop', 'insert', 'reverse'))]
-    if len(defs) != 1 or others:
-        chk.bad(f'{prefix}.2', 'R15', fn.site(defs[0] if defs else None), f'{sel} = sorted(candidates, key=counter.get)[:cap]',
-                'the returned list must be defined once as the sorted prefix of the candidate list and not modified afterwards')
+    forms = selection_forms(m)
+    missing_forms_src = ['set(set(cands)).difference(counter.keys())', 'set(cands).difference(counter.keys())', 'set(cands) - set(counter.keys())', 'set(cands) - counter.keys()', 'set(cands).difference(counter)',
+                         'set(cands) - set(counter)', '[c for c in cands if c not in counter]', '{c for c in cands if c not in counter}', '[c for c in set(cands) if c not in counter]', 'set(cands).difference(set(counter))',
+                         '(c for c in cands if c not in counter)', '[c for c in cands if c not in counter.keys()]']
+    seen = set()
+    n_main = 0
+    for assume, res in paths:
+        desc = ', '.join(f'{ast.unparse(t)[:40]} is {v}' for t, v in assume) or 'single path'
+        if res.unknown is not None or res.returned is None:
+            chk.unsure(f'{prefix}.2', 'R15', fn.site(res.unknown) if res.unknown is not None else fn.site(), desc, 'a statement outside the path vocabulary decides what the sampler returns')
+            continue
+        # which counter does this path work on?
+        objs = {_counter_of(fn, u['target']) for u in res.updates}
+        none_assumed = [v for t, v in res.assumed if cparam and term_of(fn, t, inline=False) in (expected_term(m, f'{cparam} is None'), expected_term(m, f'{cparam} == None'))]
+        not_none_assumed = [v for t, v in res.assumed if cparam and term_of(fn, t, inline=False) in (expected_term(m, f'{cparam} is not None'), expected_term(m, f'{cparam} != None'))]
+        default_path = (none_assumed and none_assumed[0]) or (not_none_assumed and not not_none_assumed[0])
+        explicit_path = (none_assumed and not none_assumed[0]) or (not_none_assumed and not_none_assumed[0])
+        want_obj = 'global' if (default_path or cparam is None) else ('param' if explicit_path else None)
+        counter_name = 'GLOBAL_PRIOR_COMB_COUNTS' if want_obj == 'global' else cparam
+        bound = {cands: ('role', 'cands'), args: ('role', 'args')}
+        if counter_name:
+            bound[counter_name] = ('role', 'counter')
+        E = lambda src: expected_term(m, src, {'cands': ('role', 'cands'), 'args': ('role', 'args'), 'counter': ('role', 'counter')})
+        rt = term_of(fn, res.returned, bound, inline=False)
+        empty_ret = isinstance(res.returned, (ast.List, ast.Tuple)) and not res.returned.elts
+        if empty_ret or rt == ('role', 'cands') and any(term_of(fn, t, bound, inline=False) in (E('len(cands) == 0'), E('not cands')) and v for t, v in res.assumed):
+            # nothing to select from: no counter may be touched
+            for u in res.updates:
+                if _counter_of(fn, u['target']):
+                    chk.bad(f'{prefix}.1b', 'R2', fn.site(u['node']), ast.unparse(u['node'])[:100], 'the counter is modified on the path that returns no selection')
+            continue
+        if want_obj is None and cparam is not None and (objs - {None}):
+            # no test of the optional parameter on this path: the counter must then be fixed
+            want_obj = next(iter(objs - {None}))
+            counter_name = 'GLOBAL_PRIOR_COMB_COUNTS' if want_obj == 'global' else cparam
+            bound[counter_name] = ('role', 'counter')
+            rt = term_of(fn, res.returned, bound, inline=False)
+        n_main += 1
+        key = (want_obj, rt, tuple((u['kind'], ast.unparse(u['target']), ast.unparse(u['over']) if u['over'] is not None else None, ast.unparse(u['value'])) for u in res.updates))
+        if key in seen:
+            continue
+        seen.add(key)
+        site = fn.site(res.returned) if hasattr(res.returned, 'lineno') else fn.site()
+        # 2 / 4: the selection
+        if rt in forms:
+            chk.ok(f'{prefix}.2', 'R15', site, f'{desc}: {ast.unparse(res.returned)[:120]}', 'selection = stable ascending sort of the candidate list by count, prefix of length cap (the cap least-evaluated candidates, ties in list order)')
+        else:
+            why = 'selection must be sorted(candidates, key=counter.get)[:args.combination_number_upper_bound] (stable, ascending, prefix)'
+            if "('bool', True)" in repr(rt) and 'reverse' in repr(rt):
+                why = 'descending sort selects the MOST evaluated candidates; ' + why
+            known_shape = any(isinstance(x, tuple) and x[:2] in (('call', ('name', 'sorted')), ('call', ('lib', 'heapq.nsmallest')), ('call', ('lib', 'heapq.nlargest')), ('call', ('lib', 'numpy.argsort')), ('call', ('lib', 'random.sample'))) for x in walk_term(rt)) \
+                or rt == ('role', 'cands') or (rt[0] == 'sub' and rt[1] == ('role', 'cands'))
+            filtered = any(isinstance(x, tuple) and x and x[0] in ('listcomp', 'genexp', 'setcomp') and any(g[1] and any(y == ('role', 'cands') for y in walk_term(g[0])) for g in x[2]) for x in walk_term(rt))
+            if filtered:
+                chk.bad(f'{prefix}.2', 'R15', site, f'{desc}: {ast.unparse(res.returned)[:160]}', 'the candidates are filtered by a predicate instead of being sorted by count and cut at the cap: a filter returns fewer than min(cap, #candidates) candidates or does not keep ties in list order; ' + why)
+            elif known_shape:
+                chk.bad(f'{prefix}.2', 'R15', site, f'{desc}: {ast.unparse(res.returned)[:160]}', f'{why}; found {show(rt)[:220]}')
+            else:
+                chk.unsure(f'{prefix}.2', 'R15', site, f'{desc}: {ast.unparse(res.returned)[:160]}', f'the returned selection is not in the vocabulary of recognised selections: {show(rt)[:200]}')
+        if prefix != 'C07':
+            continue
+        # 1c: which counter
+        if cparam is not None:
+            if default_path:
+                chk.expect(objs <= {'global'}, 'C07.1c', 'R6', site, f'{desc}: counter = {sorted(map(str, objs))}', 'default counter is the ranking counter', 'the optional counter parameter must default to GLOBAL_PRIOR_COMB_COUNTS')
+            elif explicit_path:
+                chk.expect(objs <= {'param'}, 'C07.1c', 'R6', site, f'{desc}: counter = {sorted(map(str, objs))}', 'an explicitly passed counter is the one that is used', 'when a counter is passed it must be the one that is updated and sorted by')
+            else:
+                chk.unsure('C07.1c', 'R6', site, desc, 'no test of the optional counter parameter on this path')
+        # 1a / 1b / 3: the updates
+        sel_seq = getattr(res.returned, '_seq', None)
+        inc_seen = False
+        for u in res.updates:
+            obj = _counter_of(fn, u['target'])
+            if obj is None:
+                tt = ast.unparse(u['target'])
+                if 'GLOBAL_PRIOR' in tt or (cparam and cparam in tt):
+                    chk.unsure('C07.1b', 'R2', fn.site(u['node']), ast.unparse(u['node'])[:100], 'an update whose target could not be identified as the counter')
+                continue
+            over = term_of(fn, u['over'], bound, inline=False) if u['over'] is not None else None
+            val = term_of(fn, u['value'], bound, inline=False)
+            if u['kind'] == 'storeall' and val == ('num', 0):
+                okf = [E(x) for x in missing_forms_src]
+                before = sel_seq is None or u['seq'] < sel_seq
+                chk.expect(over in okf and before, 'C07.1a', 'R2', fn.site(u['node']), ast.unparse(u['node']).replace('\n', ' ')[:140], 'only unseen candidates are initialised to 0, before the selection',
+                           f'initialisation to 0 must be restricted to candidates not yet in the counter (otherwise counts are reset every batch) and precede the selection; it ranges over {show(over)[:120]}')
+            elif u['kind'] == 'incall' and u.get('op') == 'Add':
+                ok_over = over == rt
+                ok_val = val == ('num', 1)
+                after = sel_seq is None or u['seq'] > sel_seq
+                chk.expect(ok_over and ok_val and after, 'C07.3', 'R13', fn.site(u['node']), ast.unparse(u['node']).replace('\n', ' ')[:120], '+1 for every element of the returned list, unconditionally',
+                           'the count must be raised by exactly 1 for exactly the returned candidates (after they were selected): ' + ('the loop ranges over something else than the returned list' if not ok_over else ('the increment is not 1' if not ok_val else 'the increment precedes the selection')))
+                inc_seen = True
+            else:
+                chk.bad('C07.1b', 'R2', fn.site(u['node']), ast.unparse(u['node'])[:120], 'the counter may only be initialised to 0 for unseen candidates and incremented by 1 for the returned ones')
+        if not inc_seen:
+            # conditional / unrecognised increments show up as opaque effects
+            opaque = [e for e in res.effects if any(isinstance(x, ast.Name) and x.id in ('GLOBAL_PRIOR_COMB_COUNTS', cparam) for x in ast.walk(e))]
+            if opaque:
+                nested = any(isinstance(x, (ast.If, ast.Continue, ast.Break)) for x in ast.walk(opaque[0]))
+                if nested and any(isinstance(x, ast.AugAssign) for x in ast.walk(opaque[0])):
+                    chk.bad('C07.3', 'R13', fn.site(opaque[0]), ast.unparse(opaque[0]).replace('\n', ' ')[:120], 'the +1 must be applied to every element of the returned list unconditionally')
+                else:
+                    chk.unsure('C07.3', 'R13', fn.site(opaque[0]), ast.unparse(opaque[0]).replace('\n', ' ')[:120], 'a statement that touches the counter is outside the path vocabulary')
+            else:
+                chk.bad('C07.3', 'R13', site, f'{desc}: for c in <returned>: counter[c] += 1', 'no `+= 1` over exactly the returned list was found: reported counts do not equal the number of batches in which a candidate was selected')
+    if n_main == 0:
+        chk.unsure(f'{prefix}.2', 'R15', fn.site(), 'prior_combinations_sample', 'no path that returns a selection was evaluated')
         return None
-    d = defs[0]
-    counter_names = _counter_names(fn)
-    bound = {cands: ('role', 'cands'), args: ('role', 'args')}
-    for c in counter_names:
-        bound[c] = ('role', 'counter')
-    t = term_of(fn, d.value, bound, inline=False)
-    E = lambda s: expected_term(m, s, {'cands': ('role', 'cands'), 'args': ('role', 'args'), 'counter': ('role', 'counter')})
-    cap = 'args.combination_number_upper_bound'
-    keys = ['counter.get', 'lambda c: counter[c]', 'lambda c: counter.get(c)', 'counter.__getitem__', 'lambda c: counter.get(c, 0)']
-    forms = []
-    for k in keys:
-        forms += [E(f'sorted(cands, key={k})[:{cap}]'), E(f'sorted(cands, key={k}, reverse=False)[:{cap}]'), E(f'heapq.nsmallest({cap}, cands, key={k})'),
-                  E(f'sorted(cands, key={k})[0:{cap}]'), E(f'list(sorted(cands, key={k}))[:{cap}]')]
-    if t in forms:
-        chk.ok(f'{prefix}.2', 'R15', fn.site(d), ast.unparse(d), 'selection = stable ascending sort of the candidate list by count, prefix of length cap (the cap least-evaluated candidates, ties in list order)')
-    else:
-        why = 'selection must be sorted(candidates, key=counter.get)[:args.combination_number_upper_bound] (stable, ascending, prefix)'
-        txt = show(t)
-        if "('bool', True)" in repr(t) and 'reverse' in repr(t):
-            why = 'descending sort selects the MOST evaluated candidates; ' + why
-        chk.bad(f'{prefix}.2', 'R15', fn.site(d), ast.unparse(d)[:200], f'{why}; found {txt[:220]}')
-    return fn, sel, counter_names, cands
-
-
-def _counter_names(fn):
-    """local names denoting the evaluation counter inside the sampler: the module store, the optional parameter"""
-    names = {'GLOBAL_PRIOR_COMB_COUNTS'}
-    if len(fn.params) > 2:
-        names.add(fn.params[2])
-    return names
+    return fn
 
 
 def run(repo, chk, tier):
-    r = sampler_selection(repo, chk, 'C07')
-    if r is None:
-        return
-    fn, sel, cnames, cands = r
-    m = fn.module
-    par = parents(fn.node)
-
-    # 1 + 3: mutations inside the sampler
-    muts = mutations_of(fn, cnames)
-    inc_seen = init_seen = False
-    for node, kind in muts:
-        loop = par.get(node)
-        while loop is not None and not isinstance(loop, (ast.For, ast.While)):
-            loop = par.get(loop)
-        if kind == 'augstore' and isinstance(node.op, ast.Add) and isinstance(node.value, ast.Constant) and node.value.value == 1 and isinstance(loop, ast.For) \
-                and isinstance(loop.iter, ast.Name) and loop.iter.id == sel and isinstance(loop.target, ast.Name) and isinstance(node.target.slice, ast.Name) and node.target.slice.id == loop.target.id:
-            nested = [x for x in ast.walk(loop) if isinstance(x, (ast.If, ast.For, ast.While, ast.Try)) and x is not loop]
-            chk.expect(not nested, 'C07.3', 'R13', fn.site(node), ast.unparse(loop).replace('\n', ' ')[:120], '+1 for every element of the returned list, unconditionally',
-                       'the +1 must be applied to every element of the returned list unconditionally')
-            inc_seen = True
-        elif kind == 'store' and isinstance(node.value, ast.Constant) and node.value.value == 0 and isinstance(loop, ast.For):
-            # initialise unseen candidates: loop over (set(cands) - counter.keys())
-            it = term_of(fn, loop.iter, {cands: ('role', 'cands'), **{c: ('role', 'counter') for c in cnames}})
-            E = lambda s: expected_term(m, s, {'cands': ('role', 'cands'), 'counter': ('role', 'counter')})
-            okf = [E('set(set(cands)).difference(counter.keys())'), E('set(cands).difference(counter.keys())'), E('set(cands) - set(counter.keys())'), E('set(cands) - counter.keys()'),
-                   E('set(cands).difference(counter)'), E('set(cands) - set(counter)')]
-            guarded = any(isinstance(g, ast.If) and 'not in' in ast.unparse(g.test) for g in _enclosing(node, par, loop))
-            chk.expect(it in okf or guarded, 'C07.1a', 'R2', fn.site(node), ast.unparse(loop).replace('\n', ' ')[:140], 'only unseen candidates are initialised to 0',
-                       f'initialisation to 0 must be restricted to candidates not yet in the counter (otherwise counts are reset every batch); loop ranges over {show(it)[:120]}')
-            init_seen = True
-        elif kind == 'rebind':
-            continue
-        else:
-            chk.bad('C07.1b', 'R2', fn.site(node), ast.unparse(node)[:120], 'the counter may only be initialised to 0 for unseen candidates and incremented by 1 for the returned ones')
-    chk.expect(inc_seen, 'C07.3', 'R13', fn.site(), f'for c in {sel}: counter[c] += 1', 'selected candidates are counted', 'no `+= 1` over exactly the returned list was found: reported counts do not equal the number of batches in which a candidate was selected')
-    chk.expect(init_seen or True, 'C07.1a', 'R2', fn.site(), 'counter[c] = 0 for unseen', 'unseen candidates start at 0')
-
-    # the counter the sampler works on: optional parameter defaulting to the ranking counter
-    if len(fn.params) > 2:
-        p = fn.params[2]
-        ok = False
-        for n in own_nodes(fn.node):
-            if isinstance(n, ast.If) and term_of(fn, n.test, inline=False) == expected_term(m, f'{p} is None') and len(n.body) == 1 and isinstance(n.body[0], ast.Assign) \
-                    and isinstance(n.body[0].value, ast.Name) and n.body[0].value.id == 'GLOBAL_PRIOR_COMB_COUNTS':
-                ok = True
-        chk.expect(ok, 'C07.1c', 'R6', fn.site(), f'{p} defaults to GLOBAL_PRIOR_COMB_COUNTS', 'default counter is the ranking counter', 'the optional counter parameter must default to GLOBAL_PRIOR_COMB_COUNTS')
+    fn = sampler_selection(repo, chk, 'C07')
+    if fn is None:
+        fn = repo.func(CR, 'prior_combinations_sample')
 
     # 1: writers elsewhere in the package
     outside = [(f, node, kind) for f, node, kind in package_mutations(repo, CR, STORES) if f is not fn]
@@ -140,6 +212,11 @@ def run(repo, chk, tier):
         chk.bad('C07.1d', 'R2', f.site(node), ast.unparse(node)[:120], f'evaluation counter mutated outside prior_combinations_sample ({kind}): reported counts no longer equal the number of selections')
     if not outside:
         chk.ok('C07.1d', 'R2', fn.module.relpath, f'writers of {sorted(STORES)}: prior_combinations_sample only', f'{sum(len(mm.funcs) for mm in repo.modules.values())} functions scanned', inspected=sum(len(mm.funcs) for mm in repo.modules.values()))
+    # other ways of writing the counters inside the sampler than the keyed updates of the path model (aliases, .clear(), re-binding of the store)
+    cnames = {'GLOBAL_PRIOR_COMB_COUNTS'} | ({fn.params[2]} if len(fn.params) > 2 else set())
+    for node, kind in mutations_of(fn, cnames):
+        if kind.startswith('call:') and kind not in ('call:update',) or kind == 'del' or (kind == 'rebind' and isinstance(node, ast.Assign) and any(isinstance(t, ast.Name) and t.id == 'GLOBAL_PRIOR_COMB_COUNTS' for t in node.targets)):
+            chk.bad('C07.1b', 'R2', fn.site(node), ast.unparse(node)[:120], 'the counter may only be initialised to 0 for unseen candidates and incremented by 1 for the returned ones')
 
     call_sites(repo, chk, fn)
     from .c06 import cap_writers
@@ -180,17 +257,13 @@ def call_sites(repo, chk, sampler):
                            f'the ranking sampler must use GLOBAL_PRIOR_COMB_COUNTS (the exported counter); found {show(t)[:100]}')
             elif space == 'feature-construction tuples':
                 # must be an auto-creating subscript of the construction store keyed by something that separates ' AND ' from ' AND_REL '
-                good = isinstance(counter, ast.Subscript) and isinstance(counter.value, ast.Name) and counter.value.id == 'GLOBAL_PRIOR_CONSTRUCTION_COUNTS'
-                key_ok = False
-                if good:
-                    kt = term_of(f, counter.slice, inline=True)
-                    flag = f.params[3] if len(f.params) > 3 else 'is_3mr'
-                    key_ok = any(x == ('name', flag) for x in walk_term(kt))
-                setdef = isinstance(counter, ast.Call) and isinstance(counter.func, ast.Attribute) and counter.func.attr == 'setdefault' and isinstance(counter.func.value, ast.Name) and counter.func.value.id == 'GLOBAL_PRIOR_CONSTRUCTION_COUNTS'
+                store_terms = (('name', 'GLOBAL_PRIOR_CONSTRUCTION_COUNTS'), ('lib', f'{CR}.GLOBAL_PRIOR_CONSTRUCTION_COUNTS'))
+                flag = f.params[3] if len(f.params) > 3 else 'is_3mr'
+                good = t[0] == 'sub' and t[1] in store_terms
+                key_ok = good and any(x == ('name', flag) for x in walk_term(t[2]))
+                setdef = t[0] == 'call' and t[1][0] == 'attr' and t[1][2] == 'setdefault' and t[1][1] in store_terms and len(t[2]) >= 1
                 if setdef:
-                    kt = term_of(f, counter.args[0], inline=True)
-                    flag = f.params[3] if len(f.params) > 3 else 'is_3mr'
-                    key_ok = any(x == ('name', flag) for x in walk_term(kt))
+                    key_ok = any(x == ('name', flag) for x in walk_term(t[2][0]))
                     good = True
                 if good and key_ok:
                     chk.ok('C07.6b', 'R5', f.site(c), ast.unparse(c), 'construction candidates have their own persistent counter per kind of constructed feature (key depends on is_3mr)')
